@@ -15,7 +15,7 @@ import tempfile
 import time
 
 VERIF = os.path.dirname(os.path.dirname(os.path.abspath(__file__)))
-REPO = os.environ.get("VERIF_REPO", "/repo")
+REPO = os.environ.get("VERIF_REPO") or os.environ.get("VP_RUN_REPO") or "/repo"
 SPECS = os.path.join(VERIF, "specs")
 HARNESS = os.path.join(VERIF, "harness")
 BUILD = os.path.join(VERIF, ".build")
@@ -114,7 +114,15 @@ def build_harness(cmd):
     os.makedirs(BUILD, exist_ok=True)
     shutil.copyfile(os.path.join(REPO, "go.sum"), os.path.join(HARNESS, "go.sum"))
     out = os.path.join(BUILD, cmd)
-    rc, txt, _ = run(["go", "build", "-tags", "verif", "-o", out, "./cmd/" + cmd], cwd=HARNESS, env=GOENV,
+    modflag = []
+    if os.path.realpath(REPO) != "/repo":
+        # a snapshot of the repository (vp run --with-repo): same module file with the replace directive pointed at it
+        alt = os.path.join(BUILD, "go.alt.mod")
+        with open(alt, "w") as fh:
+            fh.write(open(os.path.join(HARNESS, "go.mod")).read().replace("=> /repo", "=> " + os.path.realpath(REPO)))
+        shutil.copyfile(os.path.join(REPO, "go.sum"), os.path.join(BUILD, "go.alt.sum"))
+        modflag = ["-modfile=" + alt]
+    rc, txt, _ = run(["go", "build", "-tags", "verif"] + modflag + ["-o", out, "./cmd/" + cmd], cwd=HARNESS, env=GOENV,
                      timeout=900, check=False)
     if rc != 0:
         raise Infra("harness build failed (the repository must compile with -tags verif):\n" + txt[-6000:])
